@@ -32,9 +32,15 @@ type SpecEnv struct {
 	old    *State
 	locals func(name string) (specVal, bool)
 	where  string
+	fvs    map[string]fvBinding // captured variables (closures)
 	macroDepth int
 	entrySt     *State
 	entryLocals func(name string) (specVal, bool)
+}
+
+type fvBinding struct {
+	ptr *Term
+	typ types.Type
 }
 
 type specErr string
@@ -146,6 +152,14 @@ func (env *SpecEnv) expr(e *SExpr) specVal {
 func (env *SpecEnv) lookup(name string) (specVal, bool) {
 	if v, ok := env.vars[name]; ok {
 		return v, true
+	}
+	if b, ok := env.fvs[name]; ok && env.st != nil {
+		// captured variable of a closure: read through its cell in the current state
+		if _, isS := b.typ.Underlying().(*types.Struct); isS {
+			return specVal{env.fx.readObj(env.st, b.ptr, b.typ), b.typ}, true
+		}
+		hn, hs := env.fx.pheapName(b.typ)
+		return specVal{Select(env.fx.heapGet(env.st, hn, hs), b.ptr), b.typ}, true
 	}
 	if env.locals != nil {
 		if v, ok := env.locals(name); ok {
@@ -265,9 +279,12 @@ func (env *SpecEnv) index(x specVal, i *Term) specVal {
 	case *types.Array:
 		return specVal{Select(x.t, i), u.Elem()}
 	case *types.Map:
-		_, vn, _, vs := env.fx.mapHeapNames(u)
+		dn, vn, ds, vs := env.fx.mapHeapNames(u)
 		h := env.fx.heapGet(env.st, vn, vs)
-		return specVal{Select(Select(h, x.t), env.fx.mapKey(i, u.Key())), u.Elem()}
+		d := env.fx.heapGet(env.st, dn, ds)
+		k := env.fx.mapKey(i, u.Key())
+		// a missing key reads as the zero value
+		return specVal{Ite(And(Neq(x.t, IntLit(0)), Select(Select(d, x.t), k)), Select(Select(h, x.t), k), env.fx.e.zero(u.Elem())), u.Elem()}
 	}
 	env.fail("cannot index value of type %s", x.typ)
 	return specVal{}
@@ -787,12 +804,18 @@ type assignLoc struct {
 	ref     *Term
 	refKind string
 	gsort   Sort
+	ptype   types.Type
 }
 
 // assignLoc resolves an assigns target: x.f, heap(T.f), elems(s), *p
 func (env *SpecEnv) assignLoc(e *SExpr) *assignLoc {
 	fx := env.fx
 	switch e.Kind {
+	case "ident":
+		if b, ok := env.fvs[e.Name]; ok {
+			return &assignLoc{ref: b.ptr, refKind: "pcell", ptype: b.typ}
+		}
+		env.fail("assigns %s: not a captured variable", e.Name)
 	case "field":
 		x := env.expr(e.Args[0])
 		t := x.typ
